@@ -229,6 +229,13 @@ func CommentsInBlocks() {
 		{"[<%= if (a == 1) { %>", "<%= 5 %><% } %>]"},
 		{"[<%= for (v) in xs { %>", "<%= v %>,<% } %>]"},
 		{"<% let g = fn() { %>", "<% } %>[<%= g() %>]"},
+		// blocks of one statement whose value is used as a value (not printed in place)
+		{"<% let hello = fn() { %>", "hello<% } %>[<%= hello() + \"!\" %>]"},
+		{"<% let hello = fn() { %>hello", "<% } %>[<%= len(hello()) %>]"},
+		{"<% let n = 0 %><% let bump = fn() { %>", "<% n = n + 1 } %>[<%= if (bump() == nil) { %>N<% } else { %>S<% } %>]"},
+		{"<% let r = for (v) in [1, 2, 3] { %>", "<% let w = v } %>[<%= len(r) %>]"},
+		{"<% let q = 0 %><% let y = if (true) { %>", "<% q = 1 } %>[<%= y == nil %>]"},
+		{"<% let y = if (a == 1) { %>", "yes<% } %>[<%= y %>|<%= len(y) %>]"},
 	}
 	c := cases[vrt.Choice(len(cases))]
 	canon := c.pre + c.post
